@@ -4,7 +4,8 @@ C11 — wire and storage encoding is canonical, lossless, and safe on arbitrary 
 Layer 1 (RLP framing): fully proved in Props/C11Rlp.lean
   dec_enc, enc_dec_canonical, decExact_canonical, enc_injective, enc_prefix_free, dec_total, alloc_bound, dec_progress.
 Layer 2 (libs/ser conventions, Model/Ser.lean): this file, Props/C11NoPanic.lean (no decoder panics, map count bound),
-  Props/C11Map.lean (map order freedom), Props/C11Round.lean (Stream/readHead bridge, round trip of the fragment).
+  Props/C11Map.lean (map order freedom), Props/C11Int.lean (ParseInt∘FormatInt), Props/C11Round.lean and C11Round2.lean
+  (Stream/readHead bridge, round trip of Frag and of the extended FragN), Props/C11Roots.lean (registered roots covered).
   The full statements are kept as `def … : Prop`: C11_no_panic_statement is proved; C11_roundtrip_statement is false
   ([1]byte zero, counterexample below) and proved for the fragment `Frag`; C11_canonical_statement is false for foreign
   bytes (ParseInt leniency) and proved for encoder output of the fragment.
@@ -14,6 +15,8 @@ import LinkVerif.Props.C11Rlp
 import LinkVerif.Props.C11NoPanic
 import LinkVerif.Props.C11Map
 import LinkVerif.Props.C11Round
+import LinkVerif.Props.C11Round2
+import LinkVerif.Props.C11Roots
 
 namespace Props.C11
 open Model.Rlp Model.Ser
@@ -98,6 +101,33 @@ example : decodeBytes {} (.struct [.uint 64, .struct [.bytes, .bool], .bigptr]) 
     (.struct _ _ (.cons _ _ _ _ (.uint 64 5 (by decide) (by decide))
       (.cons _ _ _ _ (.struct _ _ (.cons _ _ _ _ (.bytes _) (.cons _ _ _ _ (.bool true) .nil)))
         (.cons _ _ _ _ (.bigptr 0) .nil))))
+    (by rfl) (by decide)
+
+/-- layer-2 round trip, extended fragment `FragN` (adds hex-ASCII ints, time.Time, slices, named types, custom encoders,
+    pointers and the nil-*big.Int convention): the decoder reads back `v'`, the value `FragN` relates to `v`
+    (`v' = v` except nil *big.Int ↦ 0), consuming exactly the encoder's bytes, wherever the value sits -/
+theorem decV_encV_N (env : Env) (f g : Nat) (t : Ty) (v v' : Val) (b : Bytes) (hf : FragN env t v v') (he : encV env f t v = .ok b)
+    (hb : b.length < 2 ^ 64) (hg : f ≤ g) : RT env g t v' b :=
+  (rt_fragN env f t v v' b hf he hb g hg).1
+
+theorem C11_roundtrip_fragmentN (env : Env) (t : Ty) (v v' : Val) (b : Bytes) (hf : FragN env t v v')
+    (hfuel : encV env (2 * b.length + 200) t v = .ok b) (hb : b.length < 2 ^ 64) :
+    decodeBytes env t false b = .ok v' := by
+  have hrt := decV_encV_N env _ (2 * b.length + 200) t v v' b hf hfuel hb (Nat.le_refl _)
+  obtain ⟨s', hd, hk, hr, hs⟩ := hrt { rest := b } [] rfl (by simp) (by simp [Room])
+  unfold decodeBytes
+  simp only [Bool.false_eq_true, if_false, hd, hr, List.isEmpty_nil, if_true]
+
+/-! non-vacuity: a PartSetHeader-shaped value {Total int, Hash []byte} and a slice of uints through a named type -/
+example : decodeBytes { defs := [(5, .struct [.int 64, .bytes])] } (.ref 5) false [0xC6, 0x82, 45, 51, 0x82, 0xAA, 0xBB]
+    = .ok (.list [.i (-3), .bytes [0xAA, 0xBB]]) :=
+  C11_roundtrip_fragmentN _ _ _ _ _
+    (.ref 5 _ _ _ rfl (.struct _ _ _ (.cons _ _ _ _ _ _ (.int 64 (-3) (by decide) (by decide) (by decide) (by decide) (by decide))
+      (.cons _ _ _ _ _ _ (.bytes _) .nil))))
+    (by rfl) (by decide)
+example : decodeBytes {} (.slice (.uint 64)) false [0xC2, 0x05, 0x07] = .ok (.list [.u 5, .u 7]) :=
+  C11_roundtrip_fragmentN _ _ _ _ _
+    (.slice _ _ _ (.cons _ _ _ _ _ (.uint 64 5 (by decide) (by decide)) (.cons _ _ _ _ _ (.uint 64 7 (by decide) (by decide)) (.nil _))))
     (by rfl) (by decide)
 
 /-! ### clauses that hold -/
